@@ -264,7 +264,7 @@ func ApplyNames(t *rapid.T, s *Spec) {
 		// the template mentions package-level names and import names: avoid those
 		seen := map[string]bool{}
 		for pi := range in.Params {
-			if !n.pct(70, "renameparam") {
+			if !n.pct(70, "renameparam") && !n.ports[in.Params[pi].Name] {
 				seen[in.Params[pi].Name] = true
 				continue
 			}
